@@ -28,6 +28,7 @@ RULE = (
     'some output; mult: |log y|>0.2; lognorm: sigma>=0.2; truncated: mu/sigma<2; non-centred; heterogeneous n_ids>=2; '
     'Gaussian always). Distinct = (kind, n_times, fixed subset) / (structural projection of the population spec, '
     'n_ids, number of covariate rows, covariate mode).')
+RULE += (' ' + 'Added class: covariates recorded in other units (1e-9, 1e-12, 1e-7, 1e4 times the usual scale; coefficients drawn relative to the covariate scale), per-sample covariate rows.')
 ASSUMPTIONS = [
     'reference CDFs / moments: scipy.stats norm, lognorm, truncnorm(a=(0-mu)/sigma) parametrised from the class '
     'docstrings; vf/ref.py em_cdf / em_mean_std for the error models',
